@@ -112,6 +112,9 @@ type WorkerOut struct {
 func runWorkers(P *Program, fn *ssa.Function, cfg Config, redirects map[string]string, n int) []*WorkerOut {
 	outs := make([]*WorkerOut, n)
 	var wg sync.WaitGroup
+	if n > 1 && os.Getenv("GOSYM_STATIC_SHARDS") == "" {
+		cfg.Claims = &sync.Map{}
+	}
 	for i := 0; i < n; i++ {
 		wg.Add(1)
 		go func(i int) {
@@ -169,6 +172,7 @@ func (e *Engine) setRedirects(m map[string]string) error {
 			return fmt.Errorf("redirect target %q not found", to)
 		}
 		e.redirects[from] = fn
+		e.resolved = map[*ssa.Function]*calleeRes{}
 	}
 	return nil
 }
